@@ -10,6 +10,7 @@
 #include <exception>
 #include <map>
 #include <sys/mman.h>
+#include <sys/time.h>
 #include <ucontext.h>
 #include <sys/syscall.h>
 #include <unistd.h>
@@ -80,6 +81,7 @@ class World {
 };
 
 static World *W = nullptr;
+static void arm_watchdog();
 static void (*g_on_crash)(const char *) = nullptr;
 
 // ---- stack pool -----------------------------------------------------------
@@ -597,6 +599,7 @@ void join_task(int task) {
 // ---- run ---------------------------------------------------------------------
 Result run(const Config &cfg, const std::function<void()> &main_fn, size_t main_stack) {
   if (W) harness_error("sim::run is not re-entrant");
+  arm_watchdog();
   World w;
   W = &w;
   w.cfg = cfg;
@@ -622,6 +625,41 @@ Result run(const Config &cfg, const std::function<void()> &main_fn, size_t main_
   Result r = std::move(w.res);
   W = nullptr;
   return r;
+}
+
+// ---- watchdog: a task that never reaches a decision point -----------------------------------------------------
+// Pre-emption happens only at intercepted calls.  A task that loops without making any (a genuine endless loop, or
+// a spin-wait on an atomic variable without yield) would hang the worker for good.  A real-time watchdog looks at
+// the step counter every 2 s; after 10 s without a step inside a run it ends the worker and says which of the
+// two it was: if another task could run, the spinner may be waiting for it (unsupported, harness error), otherwise
+// nothing can ever make progress (reported as a hang of the code under test).
+static volatile long g_wd_last = -1;
+static volatile int g_wd_stalls = 0;
+static void on_watchdog(int) {
+  if (!W || W->finished) { g_wd_stalls = 0; g_wd_last = -1; return; }
+  long now = W->res.steps + W->res.switches;
+  if (now != g_wd_last) { g_wd_last = now; g_wd_stalls = 0; return; }
+  if (++g_wd_stalls < 5) return;
+  int others = 0;
+  for (Task *t : W->tasks) if (t->state == T_RUNNABLE && t != W->current) others++;
+  char b[200];
+  int n = snprintf(b, sizeof b, "\nSTALL %s task=%d other_runnable=%d\n", others ? "SPIN" : "HANG", W->current ? W->current->id : -1, others);
+  if (write(1, b, (size_t)n) < 0) {}
+  syscall(SYS_exit_group, others ? 5 : 4);
+}
+static void arm_watchdog() {
+  static bool armed = false;
+  if (armed) return;
+  armed = true;
+  struct sigaction sa;
+  memset(&sa, 0, sizeof sa);
+  sa.sa_handler = on_watchdog;
+  sa.sa_flags = SA_RESTART;
+  sigaction(SIGALRM, &sa, nullptr);
+  struct itimerval it;
+  it.it_interval.tv_sec = 2; it.it_interval.tv_usec = 0;
+  it.it_value = it.it_interval;
+  setitimer(ITIMER_REAL, &it, nullptr);
 }
 
 // ---- crash reporting -----------------------------------------------------------
